@@ -469,9 +469,21 @@ class CtlSim:
         c.ct.stall(bool(st.get("on", 1)))
 
     def _op_stop(self, st):
+        if self.serving_task is not None and self.stopped and st.get("again") and not self.serving_task.done() \
+                and getattr(self, "stop_requests", 1) < 3:
+            # the stop is requested once more while the server waits for its clients to go (a second shutdown path,
+            # an impatient operator): still a stop, the serving task still has to COMPLETE - `await task` returns
+            self.stop_requests = getattr(self, "stop_requests", 1) + 1
+            self.stats["fault:stop_requested_again"] += 1
+            self.serving_task.cancel()
+            return
         if self.serving_task is None or self.stopped:
             return
         self.stopped = True
+        self.stop_requests = st.get("n", 1)
+        for _ in range(self.stop_requests - 1):
+            self.stats["fault:stop_requested_again"] += 1
+            self.serving_task.cancel()
         self.stop_handle = self.loop.handles_run
         for c in self.clients.values():
             if getattr(c, "lines_at_stop", None) is None:
